@@ -81,7 +81,7 @@ TPair ==
         \cup (IF e.kind = "same" /\ e.ka # e.kb THEN {<<"C16", "depends-on-excluded-sample">>} ELSE {})
         \cup (IF e.kind = "raise" /\ e.kb < e.ka THEN {<<"C16", "not-monotone">>} ELSE {}))
 
-TPanic == /\ e.op = "panic" /\ UNCHANGED <<rVars, lastK, bq, ecq>> /\ Advance({<<"C17", "panic">>})
+TPanic == /\ e.op = "panic" /\ UNCHANGED <<rVars, lastK, bq, ecq>> /\ Advance({<<"C17", "panic">>, <<"C15", "panic">>, <<"C16", "panic">>})
 
 TNext == l <= NRec /\ (TMeta \/ TNew \/ TPoll \/ TJP \/ TJR \/ TPair \/ TPanic)
 TInit == /\ RInit([ig |-> 0, dc |-> 0, cap |-> 2, thr |-> 4096]) /\ l = 1 /\ dead = {} /\ lastK = 0
